@@ -340,7 +340,7 @@ pub fn run(cfg: &Cfg, rep: &mut Report) {
         rep.inconclusive.push(format!("only {} eligible opcodes found", el.len()));
         return;
     }
-    let n = cfg.n((el.len() as u64) * 2, (el.len() as u64) * 150);
+    let n = cfg.n((el.len() as u64) * 12, (el.len() as u64) * 150);
     run_stage(cfg, rep, "modules", n, |idx, rng, r| {
         let b = match build(rng, idx as usize) {
             Some(b) => b,
